@@ -1,7 +1,7 @@
 (* C13 - the do_build model obeys the selection rule, for every argument configuration, every
    file-system world and every (abstract) section content. *)
 From PV Require Import Base.Prelude Spec.BuildSpec Model.Build Model.BuildInst Instances.HoldsC13
-  Generated.T_files_build Generated.T_files_file Generated.T_build_do.
+  Generated.T_file_proto Generated.T_build_do.
 
 (* ---------- pins: the regenerated shape facts the model relies on ---------- *)
 (* the tuple of the section loop names each of the six sections exactly once - in ANY order *)
@@ -37,9 +37,11 @@ Proof. reflexivity. Qed.
 Lemma pin_section_eq_consts : do_build_section_eq_consts = ["lua"%bs : bytes; "lua"%bs : bytes].
 Proof. reflexivity. Qed.
 
+(* the four optional attributes the model reads with a default are read that way by do_build *)
 Lemma pin_getattr_names :
-  do_build_getattr_names = ["lua_path"%bs : bytes; "optimize_tokens"%bs : bytes; "lua_format"%bs : bytes; "lua_minify"%bs : bytes].
-Proof. reflexivity. Qed.
+  forallb (fun n => existsb (zlist_eqb n) do_build_getattr_names)
+          ["lua_path"%bs : bytes; "optimize_tokens"%bs : bytes; "lua_format"%bs : bytes; "lua_minify"%bs : bytes] = true.
+Proof. vm_compute. reflexivity. Qed.
 
 Lemma pin_formatters_order : formatters_order = [".p8.png"%bs : bytes; ".p8"%bs : bytes; ".rom"%bs : bytes].
 Proof. reflexivity. Qed.
@@ -61,13 +63,6 @@ Lemma pin_build_dests :
                     && existsb (fun d => zlist_eqb (fst d) ("empty_"%bs ++ section_name s) && (snd d =? 1)) build_arg_dests)
           all_sections = true.
 Proof. vm_compute. reflexivity. Qed.
-
-(* observation O1 (not part of C13's statement): `build --lua-format` reads args.indentwidth, which the
-   build sub-command does not define, and passes a 1-tuple as writer class *)
-Lemma pin_O1_no_indentwidth :
-  existsb (fun d => zlist_eqb (fst d) "indentwidth"%bs) build_arg_dests = false
-  /\ do_build_writer_cls_is_tuple = true.
-Proof. split; reflexivity. Qed.
 
 (* ---------- small facts ---------- *)
 Lemma section_of_name_name s : section_of_name (section_name s) = Some s.
@@ -458,10 +453,12 @@ Proof.
     intros H. exists filename, prev.
     assert (Hok : out_name_ok filename = true).
     { unfold out_name_ok, is_p8, is_p8png. rewrite <- negb_orb in Eo. apply negb_false_iff in Eo. exact Eo. }
+    revert H. cbv zeta.
     destruct (truthy (getattr_d ns "lua_format"%bs (VBool false))).
-    + destruct (ns_get ns "indentwidth"%bs), (ns_get ns "keep_all_names"%bs), (ns_get ns "keep_names_from_file"%bs);
-        try discriminate; inversion H; subst; repeat split; auto.
-    + destruct (truthy (getattr_d ns "lua_minify"%bs (VBool false))); inversion H; subst; repeat split; auto.
+    + match goal with |- context [forallb ?f do_build_format_attrs] => destruct (forallb f do_build_format_attrs) end; [|discriminate]. intros H; inversion H; subst; repeat split; auto.
+    + destruct (truthy (getattr_d ns "lua_minify"%bs (VBool false))).
+      * match goal with |- context [forallb ?f do_build_minify_attrs] => destruct (forallb f do_build_minify_attrs) end; [|discriminate]. intros H; inversion H; subst; repeat split; auto.
+      * intros H; inversion H; subst; repeat split; auto.
   - intros H. subst o. apply build_loop_stop_not_wrote in El. destruct El.
 Qed.
 
@@ -511,19 +508,23 @@ Proof.
   inversion H. reflexivity.
 Qed.
 
-(* observation O1 as a statement about the model: with --lua-format and the Namespace the build
-   sub-command produces (no `indentwidth`), do_build never reaches to_file *)
+(* observation O1 as a statement about the model: with --lua-format, whenever the Namespace lacks one of the
+   attributes that branch reads strictly (today: `indentwidth`, which the build sub-command does not define),
+   do_build never reaches to_file *)
 Theorem build_lua_format_never_writes {A} (w : world A) (ns : namespace) :
   truthy (getattr_d ns "lua_format"%bs (VBool false)) = true ->
-  ns_get ns "indentwidth"%bs = None ->
+  (exists a, In a do_build_format_attrs /\ ns_get ns a = None) ->
   not_wrote (do_build_now w ns).
 Proof.
-  intros Hf Hi. unfold do_build_now, do_build.
+  intros Hf (a & Hin & Ha). unfold do_build_now, do_build.
   destruct (ns_get ns "filename"%bs) as [[| filename | b]|]; try exact I.
   destruct (negb _ && negb _); [exact I|].
   destruct (if w_exists w filename then w_cart w filename else Ok (w_empty w)); [|exact I].
   destruct (build_loop _ _ _ _ _ _ _ _) as [r|o] eqn:El.
-  - rewrite Hf, Hi. exact I.
+  - cbv zeta. rewrite Hf.
+    assert (Hfa : forallb (fun a0 => match ns_get ns a0 with Some _ => true | None => false end) do_build_format_attrs = false).
+    { apply not_true_is_false. intros H. rewrite forallb_forall in H. specialize (H a Hin). rewrite Ha in H. discriminate H. }
+    rewrite Hfa. exact I.
   - eapply build_loop_stop_not_wrote; eassumption.
 Qed.
 
